@@ -2,8 +2,8 @@
 import gens
 
 ID = "C04"
-LEAN_MODULES = ["LexVerif.Props.C04"]
-GEN = []
+LEAN_MODULES = ["LexVerif.Props.C04", "LexVerif.Props.TablesUtil"]
+GEN = ["util_tables"]
 TRUSTED = [
     "Lean 4.33.0 kernel; axioms of each theorem listed under coverage.theorems",
     "correspondence harness (harness/src/bin/run.rs) and generators (gens.py): differential testing, bounded by generator quality",
